@@ -550,9 +550,13 @@ class WorldJob(object):
                              key={'mode': mode})
             elif fired['ev'] in WRITE_PHASE:
                 if sink is not None and got != inflight['before'] and got != inflight['after']:
-                    self.vio('C15', 'R6', 'fault %s:%s while writing %s: file is torn: %s (old %s, new %s)' % (
-                        fired['ev'], fired['kind'], sink, _b(got, 40), _b(inflight['before'], 40), _b(inflight['after'], 40)), run_desc,
-                        key=dict(fkey, file_role='inflight-write-target'))
+                    # how it is torn: truncate-then-write (finding F2) can only leave a prefix of the new bytes (possibly
+                    # nothing); anything else - new bytes followed by old ones, a missing file, foreign bytes - is another defect
+                    shape = 'prefix-of-new' if (got is not None and inflight['after'] is not None and inflight['after'].startswith(got)) else \
+                        ('missing' if got is None else 'other')
+                    self.vio('C15', 'R6', 'fault %s:%s while writing %s: file is torn (%s): %s (old %s, new %s)' % (
+                        fired['ev'], fired['kind'], sink, shape, _b(got, 40), _b(inflight['before'], 40), _b(inflight['after'], 40)), run_desc,
+                        key=dict(fkey, file_role='inflight-write-target', torn_shape=shape))
             # nothing may be visited after the fault
             own = (inflight.get('input'), inflight.get('sink'))
             later = [e for e in rec['events'] if e['s'] > fault_sq and e['c'] in ('open_r', 'open_w', 'scandir')
